@@ -579,7 +579,7 @@ pub static POLLS: AtomicU64 = AtomicU64::new(0);
 pub fn poll_bound(n_items: usize, trees: usize, batches: usize) -> u64 {
     let n = n_items as u64;
     let lg = 64 - (n + 2).leading_zeros() as u64;
-    5_000 + 40 * (n + 1) * (trees as u64 + 1) * lg * (batches as u64 + 1)
+    5_000 + 100 * (n + 1) * (trees as u64 + 1) * lg * (batches as u64 + 1)
 }
 
 /// Logical bound on the iterations of the two unbounded build loops (hook `verif::tick`):
